@@ -40,6 +40,7 @@ type Engine struct {
 	stepBudget   int
 	maxPaths     int
 	mutSites     map[string]bool
+	jsonTypeErrT, jsonSyntaxErrT types.Type
 	harnessBudget time.Duration
 	solverKind   string
 	timeoutMs    int
@@ -148,6 +149,10 @@ func loadEngine(repo string, overlay map[string][]byte, tags string) (*Engine, t
 	e.ctxType = prog.ImportedPackage("context").Pkg.Scope().Lookup("Context").Type()
 	e.errorIface = types.Universe.Lookup("error").Type().Underlying().(*types.Interface)
 	e.errorStringT = prog.ImportedPackage("errors").Pkg.Scope().Lookup("errorString").Type()
+	if jp := prog.ImportedPackage("encoding/json"); jp != nil {
+		e.jsonTypeErrT = jp.Pkg.Scope().Lookup("UnmarshalTypeError").Type()
+		e.jsonSyntaxErrT = jp.Pkg.Scope().Lookup("SyntaxError").Type()
+	}
 	e.wrapErrorT = prog.ImportedPackage("fmt").Pkg.Scope().Lookup("wrapError").Type()
 	e.wrapErrorsT = prog.ImportedPackage("fmt").Pkg.Scope().Lookup("wrapErrors").Type()
 	e.joinErrorT = prog.ImportedPackage("errors").Pkg.Scope().Lookup("joinError").Type()
